@@ -37,7 +37,7 @@ import (
 func TestVerif_C10_BarrierStandby(t *testing.T) {
 	seed := kit.Seed(10)
 	shard, nshards := kit.Shard()
-	r := kit.NewResult(t, "c10-barrier-standby", seed, "enumerated: store kind x meta prefix (root / namespace) x number of rotations the standby is behind (1..3, each with its upgrade entry) x root-key rotation (none / before the standby unsealed / after it unsealed, so its root key is stale) x the way the standby follows (CheckUpgrade loop + ReloadRootKey + ReloadKeyring as ha.go performKeyUpgrades, or the CheckUpgrade loop alone as the periodic check and the namespace keyring invalidation do) x the first keyring persist the promoted standby performs (rotate / SetRotationConfig / encryption-count persist / root-key rotation). After EVERY step of the standby its keyring is compared with the active node's (root key bytes, every term key, active term; VerifyRoot and Keyring() through the API); then the standby acts as the active node (put, keyring persist, put), the old active node steps down or is sealed, every instance is sealed and a fresh instance must refuse the all-zero key, the superseded root key and other wrong keys, open with the valid root key and read every entry either instance wrote. Step comparisons do not stop a case here (the end state is judged as well). Every combination is a distinct case")
+	r := kit.NewResult(t, "c10-barrier-standby", seed, "enumerated: store kind x meta prefix (root / namespace) x number of rotations the standby is behind (1..3, each with its upgrade entry) x root-key rotation (none / before the standby unsealed / after it unsealed, so its root key is stale) x the way the standby follows (CheckUpgrade loop + ReloadRootKey + ReloadKeyring as ha.go performKeyUpgrades, or the CheckUpgrade loop alone as the periodic check and the namespace keyring invalidation do) x the first keyring persist the promoted standby performs (rotate / SetRotationConfig / encryption-count persist / root-key rotation). After EVERY step of the standby its keyring is compared with the active node's (root key bytes, every term key, active term; VerifyRoot and Keyring() through the API); the standby serves reads (Get, read-only transaction Get, Decrypt, List) while it is behind - entries of terms it lacks fail legitimately - and after every single upgrade step and reload, where every entry and ciphertext whose term its keyring now holds must read back; then the standby acts as the active node (put, keyring persist, put), the old active node steps down or is sealed, every instance is sealed and a fresh instance must refuse the all-zero key, the superseded root key and other wrong keys, open with the valid root key and read every entry either instance wrote. Step comparisons do not stop a case here (the end state is judged as well). Every combination is a distinct case")
 	r.Exhaustive = true
 	defer r.Write(t)
 	styles := []string{"reload", "upgrade-only"}
@@ -91,6 +91,8 @@ func TestVerif_C10_BarrierStandby(t *testing.T) {
 	r.Require("fresh_instance_unseals_after_promotion_with_superseded_root_keys", 150/div)
 	r.Require("wrong_key_kind:all-zero", 500/div)
 	r.Require("superseded_root_key_refused", 150/div)
+	r.Require("standby_reads_while_behind_failed_legitimately", 500/div)
+	r.Require("standby_rereads_ok_of_terms_installed_by_the_upgrade_path", 500/div)
 }
 
 func c10StandbyCase(e *c10B, behind int, rootRot, style, keyOp string) {
@@ -111,7 +113,12 @@ func c10StandbyCase(e *c10B, behind int, rootRot, style, keyOp string) {
 		},
 	}
 	for i := 0; i < behind; i++ {
-		steps = append(steps, func() { e.opRotate(true) }, func() { e.opPut() })
+		// the standby serves reads while it is behind: entries of terms it does not hold yet fail
+		// (legitimately), and must read back once the term has arrived
+		steps = append(steps, func() { e.opRotate(true) }, func() { e.opPut() }, func() { e.opEncrypt() }, func() {
+			e.step("standby-read", "standby serves reads (%d term(s) behind)", e.term-e.sTerm)
+			e.sbRead("serving reads while behind")
+		})
 	}
 	steps = append(steps,
 		func() {
@@ -148,6 +155,8 @@ func c10SchedScenarios() []c10SchedScenario {
 		{"rr", "rot"}, {"rr", "cfg"}, {"rr", "pe"}, {"rr", "put"}, {"rr", "seal"}, {"rr", "rr"},
 		{"rot", "cfg"}, {"rot", "pe"}, {"rot", "seal"}, {"rot", "rot"}, {"rot", "put"}, {"cfg", "pe"}, {"pe", "seal"}, {"put", "seal"},
 		{"rr", "rot", "put"}, {"rr", "rot", "cfg"}, {"rr", "pe", "rot"}, {"rr", "rr", "rot"}, {"rr", "rot", "seal"}, {"rr", "cfg", "pe"}, {"rot", "pe", "put"},
+		// readers racing a rotation: whatever record a read finds, it must be able to open it
+		{"rot", "rd"}, {"rot", "rot", "rd"}, {"rr", "rot", "rd"},
 	}
 	var out []c10SchedScenario
 	for i, l := range lists {
@@ -279,6 +288,36 @@ func c10SchedRun(r *kit.Result, seed int64, si int, sc c10SchedScenario, caseID 
 						out.got = "different value"
 					}
 				}
+			case "rd":
+				// every entry written before, and the entries the rotations next to it write under their new terms
+				want := map[string][]byte{}
+				for k, v := range acked {
+					want[k] = v
+				}
+				for j, o := range sc.ops {
+					if o == "rot" {
+						want[fmt.Sprintf("%sd/rot%d", meta, j)] = nil
+					}
+				}
+				var ks []string
+				for k := range want {
+					ks = append(ks, k)
+				}
+				sort.Strings(ks)
+				for round := 0; round < 2 && out.got == ""; round++ {
+					for _, k := range ks {
+						g, gerr := b.Get(c10Ctx, k)
+						switch {
+						case gerr != nil && hasSeal && c10IsSealedErr(gerr):
+						case gerr != nil:
+							out.got = fmt.Sprintf("Get(%s): %v", strings.TrimPrefix(k, meta), gerr)
+						case g == nil && want[k] != nil:
+							out.got = fmt.Sprintf("Get(%s): absent", strings.TrimPrefix(k, meta))
+						case g != nil && want[k] != nil && !bytes.Equal(g.Value, want[k]):
+							out.got = fmt.Sprintf("Get(%s): different value", strings.TrimPrefix(k, meta))
+						}
+					}
+				}
 			case "seal":
 				out.err = b.Seal()
 			}
@@ -328,7 +367,10 @@ func c10SchedRun(r *kit.Result, seed int64, si int, sc c10SchedScenario, caseID 
 			r.Count("concurrent_rotations_acknowledged", 1)
 		case "cfg":
 			cfgs = append(cfgs, o.cfg)
-		case "put":
+		case "put", "rd":
+			if op == "rd" {
+				r.Count("concurrent_read_sweeps_next_to_a_rotation", 1)
+			}
 			if o.got != "" {
 				viol("concurrent-read-wrong", "read of an entry written before, issued next to %s: %s; schedule %s", sc.name, o.got, sched.String())
 				return sched, r.NViolations() < 20
@@ -567,7 +609,7 @@ func c10SchedWindows(r *kit.Result, s kit.Schedule) {
 func TestVerif_C10_BarrierSchedules(t *testing.T) {
 	seed := kit.Seed(10)
 	shard, nshards := kit.Shard()
-	r := kit.NewResult(t, "c10-barrier-schedules", seed, "pairs and triples of {RotateRootKey, Rotate (+put), SetRotationConfig, encryption-count keyring persist, put+get, Seal} on ONE barrier instance, issued concurrently under the storage-operation gate (every physical operation is a scheduling point; each request first parks at a start marker so the gate decides when it enters the barrier): directed schedules that let every other request in while a keyring-persisting request (above all the root-key rotation) sits before its keyring write, before its root-key-record write and before its legacy-record removal, all interleavings with <=2 preemptions up to a run cap, then seeded PCT schedules. After quiescence: every request reported success (or 'sealed' when a Seal ran next to it); active term = initial term + acknowledged rotations in memory; every acknowledged write reads back; a put carries the newest term; then seal, and a fresh instance opens with exactly one root key, a currently valid one (never the superseded, the all-zero or a random one), loads the same keyring and passes the same checks. A schedule is distinct by scenario + (tag,op) order hash; non-trivial when requests overlapped or one was judged blocked on the barrier lock while another was parked")
+	r := kit.NewResult(t, "c10-barrier-schedules", seed, "pairs and triples of {RotateRootKey, Rotate (+put), SetRotationConfig, encryption-count keyring persist, put+get, a read sweep over old entries and the entries the rotations write under their new terms, Seal} on ONE barrier instance, issued concurrently under the storage-operation gate (every physical operation is a scheduling point; each request first parks at a start marker so the gate decides when it enters the barrier): directed schedules that let every other request in while a keyring-persisting request (above all the root-key rotation) sits before its keyring write, before its root-key-record write and before its legacy-record removal, all interleavings with <=2 preemptions up to a run cap, then seeded PCT schedules. After quiescence: every request reported success (or 'sealed' when a Seal ran next to it); active term = initial term + acknowledged rotations in memory; every acknowledged write reads back; a put carries the newest term; then seal, and a fresh instance opens with exactly one root key, a currently valid one (never the superseded, the all-zero or a random one), loads the same keyring and passes the same checks. A schedule is distinct by scenario + (tag,op) order hash; non-trivial when requests overlapped or one was judged blocked on the barrier lock while another was parked")
 	defer r.Write(t)
 	for si, sc := range c10SchedScenarios() {
 		if si%nshards != shard {
@@ -591,7 +633,7 @@ func TestVerif_C10_BarrierSchedules(t *testing.T) {
 		// persists the keyring) is parked before its w-th storage write (keyring, root-key record,
 		// removal of the legacy record); afterwards `other` keeps running while it can
 		for fi, first := range tags {
-			if op := sc.ops[fi]; op == "put" || op == "seal" {
+			if op := sc.ops[fi]; op == "put" || op == "seal" || op == "rd" {
 				continue
 			}
 			for oi, other := range tags {
@@ -642,6 +684,7 @@ func TestVerif_C10_BarrierSchedules(t *testing.T) {
 	r.Require("fresh_instance_wrong_or_stale_keys_refused", 700/div)
 	r.Require("entries_read_back_after_concurrent_key_operations", 2000/div)
 	r.Require("schedules_with_seal", 45/div)
+	r.Require("concurrent_read_sweeps_next_to_a_rotation", 40/div)
 }
 
 var _ physical.Backend = (*kit.ProbeBackend)(nil)
